@@ -32,6 +32,15 @@ func (g *gen) parse(rel string) *ast.File {
 	return f
 }
 
+func (g *gen) parseAbs(path string) *ast.File {
+	f, err := parser.ParseFile(g.fset, path, nil, 0)
+	if err != nil {
+		g.errs = append(g.errs, fmt.Sprintf("%s: %v", path, err))
+		return nil
+	}
+	return f
+}
+
 func (g *gen) funcDecl(f *ast.File, name string) *ast.FuncDecl {
 	if f == nil {
 		return nil
@@ -94,6 +103,7 @@ func Run(repo, out string, forID string) (Facts, []string) {
 	g.templates()
 	g.report()
 	g.pipeline()
+	g.security()
 	g.shared(forID == "C06" || forID == "all")
 	keys := make([]string, 0, len(g.facts))
 	for k := range g.facts {
